@@ -1196,3 +1196,125 @@ Proof.
     exists k. split; [lia|]. split; [assumption|]. intros _. assumption.
   - exists 0. split; [lia|]. split; [lia|]. discriminate.
 Qed.
+
+(* ---------------------------------------------------------------------- *)
+(* C09_wake_after_every_poll: the wheel is woken after every driver poll    *)
+
+Theorem wake_after_every_poll : forall rem ans now1 now2 w,
+  ans <> DError ->
+  loop_iter rem ans now1 now2 w =
+    Ok (if rem then Some 0 else min_timeout now1 w, fst (wake now2 w), snd (wake now2 w)) /\
+  poll_with ans now2 w = Ok (wake now2 w).
+Proof.
+  intros rem ans now1 now2 w N. unfold loop_iter, poll_with.
+  destruct ans; try congruence; cbn; destruct (wake now2 w); split; reflexivity.
+Qed.
+
+Lemma loop_iter_inv : forall rem ans now1 now2 w t ws w',
+  loop_iter rem ans now1 now2 w = Ok (t, ws, w') ->
+  ans <> DError /\ wake now2 w = (ws, w') /\
+  t = (if rem then Some 0 else min_timeout now1 w).
+Proof.
+  intros rem ans now1 now2 w t ws w' H. unfold loop_iter, poll_with in H.
+  destruct ans; cbn in H; try discriminate;
+    destruct (wake now2 w) as [ws0 w0]; inversion H; subst;
+    (split; [discriminate|split; reflexivity]).
+Qed.
+
+(* a loop of any length, whatever the driver answered each time, is the
+   program of its wakes *)
+Lemma loop_run_as_ops : forall ts w wss w',
+  loop_run w ts = Ok (wss, w') ->
+  run w (turn_ops ts) = Ok (map UWoken wss, w').
+Proof.
+  induction ts as [|[[[rem ans] n1] n2] r IH]; intros w wss w' H.
+  - cbn in H. inversion H; subst. reflexivity.
+  - cbn [loop_run] in H.
+    destruct (loop_iter rem ans n1 n2 w) as [[[t ws] w1]|c] eqn:E; cbn in H; [|discriminate].
+    destruct (loop_run w1 r) as [[wss1 w2]|c] eqn:E2; cbn in H; [|discriminate].
+    inversion H; subst. apply loop_iter_inv in E as (_ & E & _).
+    cbn [turn_ops map snd run step]. rewrite E. cbn.
+    fold (turn_ops r). rewrite (IH _ _ _ E2). reflexivity.
+Qed.
+
+Lemma last_reg_turns : forall k s ts, last_reg k s (turn_ops ts) = s.
+Proof. induction ts as [|t r IH]; cbn; [reflexivity|exact IH]. Qed.
+
+Lemma in_turn_ops : forall o ts, In o (turn_ops ts) -> exists t, In t ts /\ o = OWake (snd t).
+Proof.
+  intros o ts H. unfold turn_ops in H. apply in_map_iff in H as [t [E I]]. exists t. auto.
+Qed.
+
+Theorem always_fires_any_answer : forall ts w wss w1 k s0 rem ans n1 n2,
+  wf w -> In (k, s0) (wmap w) ->
+  loop_run w ts = Ok (wss, w1) ->
+  (forall t, In t ts -> snd t < kdl k) ->
+  ans <> DError -> kdl k <= n2 ->
+  exists t ws w2,
+    loop_iter rem ans n1 n2 w1 = Ok (t, ws, w2) /\
+    is_completed k w2 = true /\
+    exists l1 l2,
+      filter (due n2) (wmap w1) = l1 ++ (k, s0) :: l2 /\
+      ~ In k (keys_of l1) /\ ~ In k (keys_of l2) /\
+      ws = wakers_of l1 ++ opt_list s0 ++ wakers_of l2.
+Proof.
+  intros ts w wss w1 k s0 rem ans n1 n2 W Hin Hr Hlt Na Hd.
+  apply loop_run_as_ops in Hr.
+  destruct (wake_after_every_poll rem ans n1 n2 w1 Na) as [E _].
+  destruct (wake n2 w1) as [ws w2] eqn:Ew. cbn [fst snd] in E.
+  exists (if rem then Some 0 else min_timeout n1 w1), ws, w2. split; [exact E|].
+  assert (A := always_fires (turn_ops ts) w (map UWoken wss) w1 k s0 n2 ws w2 W Hin Hr).
+  rewrite last_reg_turns in A. apply A; try assumption.
+  - intros X. apply in_turn_ops in X as [t [_ X]]. discriminate.
+  - intros now' X. apply in_turn_ops in X as [t [It X]]. inversion X; subst. apply Hlt. assumption.
+Qed.
+
+(* ---------------------------------------------------------------------- *)
+(* C09_interval_first_tick_cancel_safe                                      *)
+
+Lemma ticked_after : forall iv (c : bool),
+  first_ticked (if c then tick_done iv else iv) = first_ticked iv || c /\
+  istart (if c then tick_done iv else iv) = istart iv /\
+  iperiod (if c then tick_done iv else iv) = iperiod iv.
+Proof.
+  intros iv [|]; cbn; [rewrite orb_true_r|rewrite orb_false_r]; repeat split.
+Qed.
+
+Lemma iv_run_aligned : forall evs iv,
+  0 < iperiod iv < DUR_LIMIT -> clocked (first_ticked iv) (istart iv) evs ->
+  Forall (fun d => exists k, 0 <= k /\ d = istart iv + k * iperiod iv) (iv_run iv evs).
+Proof.
+  induction evs as [|[now c] r IH]; intros iv P C; cbn [iv_run]; constructor.
+  - destruct C as [C _]. destruct (tick_aligned iv now P C) as [k [K [E _]]]. exists k. auto.
+  - destruct C as [_ C]. destruct (ticked_after iv c) as (F & S & Pe).
+    specialize (IH (if c then tick_done iv else iv)).
+    rewrite F, S, Pe in IH. apply IH; assumption.
+Qed.
+
+Lemma iv_run_cancelled_prefix : forall pre iv now c post,
+  first_ticked iv = false ->
+  (forall e, In e pre -> iv_completed e = false) ->
+  firstn (S (length pre)) (iv_run iv (pre ++ IvTick now c :: post))
+  = repeat (istart iv) (S (length pre)).
+Proof.
+  induction pre as [|[n0 c0] pre IH]; intros iv now c post F H.
+  - cbn. unfold tick_deadline. rewrite F. reflexivity.
+  - assert (c0 = false) by (apply (H (IvTick n0 c0)); cbn; auto). subst c0.
+    cbn [app iv_run length]. cbn [firstn repeat]. f_equal.
+    + unfold tick_deadline. rewrite F. reflexivity.
+    + apply IH; [assumption|]. intros e He. apply H. cbn. auto.
+Qed.
+
+Theorem interval_first_tick_cancel_safe : forall iv evs,
+  0 < iperiod iv < DUR_LIMIT -> first_ticked iv = false ->
+  clocked false (istart iv) evs ->
+  Forall (fun d => exists k, 0 <= k /\ d = istart iv + k * iperiod iv) (iv_run iv evs) /\
+  (forall pre now c post,
+     evs = pre ++ IvTick now c :: post ->
+     (forall e, In e pre -> iv_completed e = false) ->
+     firstn (S (length pre)) (iv_run iv evs) = repeat (istart iv) (S (length pre))).
+Proof.
+  intros iv evs P F C. split.
+  - apply iv_run_aligned; [assumption|]. rewrite F. assumption.
+  - intros pre now c post -> H. apply iv_run_cancelled_prefix; assumption.
+Qed.
